@@ -69,11 +69,11 @@ def run(ctx):
     rng = ctx.rng
     mons = [l2.mon_c06, l2.mon_c02]
     # 1. random scenarios with random faults (model correspondence included)
-    l2common.run_all(ctx, l2common.scenarios(ctx, 40, 800, faults_p=1.0), mons)
+    l2common.run_all(ctx, l2common.scenarios(ctx, 600, 12000, faults_p=1.0), mons)
     # 2. hostile streams through real dispatchers and a real listener pool (no model correspondence: output is not in Model/Sup)
-    l2common.run_all(ctx, [hostile_scenario(rng) for _ in range(ctx.n(25, 400))], mons, correspond=False)
+    l2common.run_all(ctx, [hostile_scenario(rng) for _ in range(ctx.n(300, 6000))], mons, correspond=False)
     # 3. exhaustive single faults over base scenarios
-    for b in range(ctx.n(1, 6)):
+    for b in range(ctx.n(2, 12)):
         progs = l2.gen_programs(rng, 3)
         script = l2.gen_script(rng, progs, 14, shutdown=rng.choice([None, 8]), rpcs=True, group_forms=False) + [(1024, [])] * 6
         for progs2, script2, fault_at in single_faults(ctx, (progs, script)):
